@@ -65,6 +65,12 @@ outer: {
 }
 
 jsr other_routine
+
+.test "uses_other" {
+    lda #other_value
+    .assert cpu.a == other_value
+    brk
+}
 "#,
     // 2: no imports, multi-byte characters in strings and comments
     r#"// héllo wörld ✓ comment
@@ -105,6 +111,9 @@ start:
     no_such_macro(1)
     jsr other_routine
     rts
+.test "in_broken_main" {
+    brk
+}
 "#,
     // 5: syntactically broken
     r#".import * from "other.asm"
@@ -135,6 +144,11 @@ other_routine: {
     rts
 }
 .const other_value = 7
+.test "in_other" {
+    jsr other_routine
+    .assert cpu.a == 7
+    brk
+}
 "#,
     r#"other_routine:
     lda qux
